@@ -69,7 +69,8 @@ Definition evalKM (c06 : bool) (c : caseKM) : verdict :=
                       | IOk p => check_valid (list_maxN (q_part c)) (length (q_part c)) p
                       | _ => false
                       end) (q_impls c) in
-  let prop06 := negb (q_exact c) || all_same (q_impls c) in
+  (* erode sums computed diameters (not integers) in HashMap order: outside "exactly representable sums" *)
+  let prop06 := negb (q_exact c) || q_erode c || all_same (q_impls c) in
   let '(corr, cl) :=
     if q_model c then
       let r := model_of (reds_chk F64 sum_ok_f64 val_ok_f64 cmp_ok_f64 T_seq P_id) c in
